@@ -25,7 +25,7 @@ func init() {
 	fw.Register(&fw.Property{
 		ID:    "C11",
 		Level: "exploration",
-		Rule: "systematic first: every unordered pair (incl. self pairs) of operation kinds {Filter numeric/like/ilike/user predicate/composite/enum set, Sort, Distinct, GroupBy->Aggregate (built-ins, user functions, one shared function value from aggregation.StrJoin), GroupBy->QFrames, Apply 0/1/2 argument, built-in ToUpper on string and enum, constant/copy, FilteredApply, Eval with default and with one shared user context, WithRowNums, Select/Drop/Slice/Copy, all typed views, ToCSV, ToJSON, String, Equals, ByteSize/ColumnTypeMap} " +
+		Rule: "systematic first: every unordered pair (incl. self pairs) of operation kinds {Filter numeric/like/ilike/user predicate/composite/enum set, Sort, Distinct, GroupBy->Aggregate (built-ins, user functions, one shared function value from aggregation.StrJoin, one Grouper shared by all goroutines), GroupBy->QFrames, Filter with one shared clause value holding unsorted value lists, Apply 0/1/2 argument, built-in ToUpper on string and enum, constant/copy, FilteredApply, Eval with default and with one shared user context, WithRowNums, Select/Drop/Slice/Copy, all typed views, ToCSV, ToJSON, String, Equals, ByteSize/ColumnTypeMap} " +
 			"runs concurrently (2 goroutines per side, common barrier, 2 repetitions of two back-to-back executions, GOMAXPROCS varied, user callbacks that yield) on the same frame / on a frame and one derived from it sharing its index array / on two siblings sharing columns / on a parent that was itself produced by adding a column, for root kinds slice-backed, Const*, CSV-blob-backed and enum-heavy; then random storms of 2-16 goroutines; " +
 			"deciding instruments: the Go race detector (every worker runs the -race build; reports are collected from its log) and comparison of every concurrent result with the same operation's result computed alone before and after; " +
 			"evaluation = one concurrent execution of one operation; non-trivial = pair execution whose two sides overlapped in time (measured from one monotonic clock); distinct by (operation pair, relation, root kind)",
@@ -60,6 +60,22 @@ type c11Env struct {
 	n    int
 	// one function value obtained from the library, used by every goroutine of the case
 	strJoin func([]*string) *string
+	// one clause value (holding unsorted value lists) used by every goroutine of the case, and copies of its lists
+	sharedClause               qframe.FilterClause
+	inInts, inIntsCopy         []int
+	inStrings, inStringsCopy   []string
+	inFloats, inFloatsCopy     []float64
+	// one Grouper per frame of the case, used by every goroutine (set only when the operation is part of the case)
+	gA, gB   qframe.Grouper
+	gALen    int
+	groupers bool
+}
+
+func (e *c11Env) grouperFor(f qframe.QFrame) qframe.Grouper {
+	if f.Len() == e.gALen {
+		return e.gA
+	}
+	return e.gB
 }
 
 type c11Op struct {
@@ -160,6 +176,24 @@ func c11Ops() []c11Op {
 		{"GroupBy.Aggregate(library StrJoin, one shared function value)", func(e *c11Env, f qframe.QFrame, _ func()) uint64 {
 			g := f.GroupBy(groupby.Columns(col(e, model.KInt, 0), col(e, model.KBool, 0)))
 			return hashFrame(g.Aggregate(qframe.Aggregation{Fn: e.strJoin, Column: col(e, model.KString, 0), As: "joined"}, qframe.Aggregation{Fn: e.strJoin, Column: col(e, model.KEnum, 1), As: "joinede"}), false)
+		}},
+		{"Filter(one shared clause value holding unsorted value lists)", func(e *c11Env, f qframe.QFrame, _ func()) uint64 {
+			return hashFrame(f.Filter(e.sharedClause), true)
+		}},
+		{"one shared Grouper: Aggregate and QFrames", func(e *c11Env, f qframe.QFrame, yield func()) uint64 {
+			g := e.grouperFor(f)
+			agg := g.Aggregate(qframe.Aggregation{Fn: "sum", Column: col(e, model.KInt, 1)}, qframe.Aggregation{Fn: "max", Column: col(e, model.KFloat, 0)},
+				qframe.Aggregation{Fn: func(v []int) int { yield(); return len(v) }, Column: model.IDCol})
+			frames, err := g.QFrames()
+			if err != nil {
+				return 1
+			}
+			var acc uint64
+			for _, fr := range frames {
+				h := hashFrame(fr, true)
+				acc += h * (h | 1)
+			}
+			return hashFrame(agg, false) ^ acc*3
 		}},
 		{"GroupBy().Aggregate(in-place median)", func(e *c11Env, f qframe.QFrame, yield func()) uint64 {
 			// a median sorts the slice it is handed: legal, the slice is documented to be the callback's to use during the call
@@ -305,6 +339,10 @@ var c11Relations = []string{"same-frame", "parent-child(shared index)", "sibling
 func c11Root(rng *rand.Rand, kind string, n int) (qframe.QFrame, *c11Env, error) {
 	f := &model.Frame{}
 	env := &c11Env{rng: rng, cols: map[model.Kind][]string{}, ctx: newCtx(), n: n, strJoin: aggregation.StrJoin("|")}
+	env.inInts = []int{3, -2, 5, 0, 1, -3, 2, 4, -1}
+	env.inStrings = []string{"xab", "a", "äb", "ab", "", "b"}
+	env.inFloats = []float64{2.5, -1, 0.25, -24.75, 7, 0}
+	env.inIntsCopy, env.inStringsCopy, env.inFloatsCopy = append([]int(nil), env.inInts...), append([]string(nil), env.inStrings...), append([]float64(nil), env.inFloats...)
 	// values include bytes that every writer has to escape (control characters, quotes, backslash, multi-byte runes)
 	enumVals := []string{"v1", "v2", "v3", "V4", "ab", "Ab", "v\x02", "q\"v"}
 	strs := []string{"a", "ab", "aB", "xab", "b", "", "äb", "a-b", "ı", "ß", "\x01a", "a\x1fb", "\x00", "\x07\x08\x0c", "q\"uote", "back\\slash", "日本ɐɐɐɐɐɐa"}
@@ -404,6 +442,10 @@ func c11Root(rng *rand.Rand, kind string, n int) (qframe.QFrame, *c11Env, error)
 			qf = qframe.New(data, newqfEnums(enums))
 		}
 	}
+	env.sharedClause = qframe.Or(
+		qframe.And(qframe.Filter{Column: env.cols[model.KInt][0], Comparator: "in", Arg: env.inInts}, qframe.Filter{Column: env.cols[model.KString][0], Comparator: "in", Arg: env.inStrings, Inverse: true}),
+		qframe.Filter{Column: env.cols[model.KFloat][0], Comparator: "in", Arg: env.inFloats},
+		qframe.Not(qframe.Filter{Column: env.cols[model.KInt][1], Comparator: "in", Arg: env.inInts}))
 	return qf, env, qf.Err
 }
 
@@ -431,7 +473,7 @@ func runC11(c *fw.Case) {
 	// first one, the concurrent phase runs on the second one, which has never been touched before - so anything
 	// that is initialised lazily on first use is initialised *during* the concurrent phase.
 	rootSeed := rng.Int63()
-	seqRoot, _, err0 := c11Root(rand.New(rand.NewSource(rootSeed)), c11RootKinds[kindIx], n)
+	seqRoot, seqEnv, err0 := c11Root(rand.New(rand.NewSource(rootSeed)), c11RootKinds[kindIx], n)
 	root, env, err := c11Root(rand.New(rand.NewSource(rootSeed)), c11RootKinds[kindIx], n)
 	if err != nil || err0 != nil {
 		c.Count("root_build_failed", 1)
@@ -533,12 +575,21 @@ func runC11(c *fw.Case) {
 	}
 	c.Describe(map[string]interface{}{"execution": label, "gomaxprocs": runtime.GOMAXPROCS(0)})
 
+	// values shared by all goroutines exist twice as well: the reference run uses seqEnv's, the concurrent phase env's
+	for _, jb := range jobs {
+		if strings.HasPrefix(jb.op.name, "one shared Grouper") && !env.groupers {
+			keys := groupby.Columns(env.cols[model.KInt][0], env.cols[model.KEnum][0])
+			env.gA, env.gB, env.gALen, env.groupers = fa.GroupBy(keys), fb.GroupBy(keys), fa.Len(), true
+			seqEnv.gA, seqEnv.gB, seqEnv.gALen, seqEnv.groupers = sa.GroupBy(keys), sb.GroupBy(keys), sa.Len(), true
+			c.Count("cases_with_shared_groupers", 1)
+		}
+	}
 	noYield := func() {}
 	// sequential reference results
 	seq := make([]uint64, len(jobs))
 	ok := c.GuardFail("sequential", label, func() {
 		for k, jb := range jobs {
-			seq[k] = jb.op.run(env, jb.seq, noYield)
+			seq[k] = jb.op.run(seqEnv, jb.seq, noYield)
 		}
 	})
 	if !ok {
@@ -618,6 +669,12 @@ func runC11(c *fw.Case) {
 			}
 		}
 	})
+	// the value lists handed to the library inside the shared clause are the caller's: they must be as they were
+	if fmt.Sprint(env.inInts) != fmt.Sprint(env.inIntsCopy) || fmt.Sprint(env.inStrings) != fmt.Sprint(env.inStringsCopy) || fmt.Sprint(env.inFloats) != fmt.Sprint(env.inFloatsCopy) {
+		c.Fail("argument-changed", "%s: a value list passed as Filter argument was modified: ints %v (was %v), strings %q (was %q), floats %v (was %v)", label,
+			env.inInts, env.inIntsCopy, env.inStrings, env.inStringsCopy, env.inFloats, env.inFloatsCopy)
+		return
+	}
 	if !storm {
 		c.Count("pair_executions", 1)
 		if overlapped {
